@@ -20,7 +20,8 @@ def build(ctx):
     ctx.assumptions = ['serde_json::to_string of the range list succeeds', 'Regex::captures / is_match return arbitrary results; Captures::get(i) is Some for a mandatory group; Match::as_str returns an arbitrary string; '
                        'str::parse::<u32> is a function of its argument', 'Command::status returns an arbitrary io::Result<ExitStatus>']
     eng.lenient = True
-    eng.inline_only = [re.compile(r'scan_diff|run_rustfmt')]
+    # the two kernels and whatever helpers of the same file they call
+    eng.inline_only = [re.compile(r'scan_diff|run_rustfmt'), re.compile(r'^src/format-diff/main\.rs$')]
     sd = eng.find('scan_diff', free=True)
     rp = make_replay(ctx)
     parse_ok = z3.Function('parse_u32_ok', str_sort(), z3.BoolSort())
@@ -68,6 +69,23 @@ def build(ctx):
             eng.stubs = []
             eng.stub(r'HashSet::<.*>::is_empty$', lambda e, s, a, c: z3.BoolVal(len(e.read_ref(s, a[0]).items[0].items) == 0), 'HashSet::is_empty (harness entry list)')
             succ = z3.Bool('rustfmt.success')
+
+            def hs_iter(e, s_, a, c):
+                hs = deref(e, s_, a[0])
+                cell = e.ref_to(s_, Seq([it_.items[0] for it_ in hs.items[0].items]), True, 'hs_iter')
+                return Tup([cell, bv_const(0, 'usize')], 'OwnedIter')
+
+            def hs_next(e, s_, a, c):
+                it_ = e.read_ref(s_, a[0])
+                cell, pos = it_.items
+                seq = e.read_ref(s_, cell)
+                p_ = pos.concrete()
+                if p_ >= len(seq.items):
+                    return Enum('Option', 0, {})
+                e.write_ref(s_, a[0], Tup([cell, bv_const(p_ + 1, 'usize')], 'OwnedIter'))
+                return Enum('Option', 1, {1: Tup([e.ref_to(s_, seq.items[p_], False, 'file')])})
+            eng.stub(r'^<&HashSet<.*> as (std::iter::)?IntoIterator>::into_iter$|HashSet::<.*>::iter$', hs_iter, 'HashSet iteration = the harness entry list')
+            eng.stub(r'hash_set::Iter<.*> as (std::iter::)?Iterator>::next$', hs_next, 'hash_set::Iter::next')
 
             def status_stub(eng_, st_, args, ci):
                 st_.trace.append(('status',))
@@ -196,6 +214,12 @@ def run_lines(ctx, eng, sd, k, rp, parse_ok, parse_val):
             return Enum('Option', z3.If(has_count[li], z3.BitVecVal(1, 64), z3.BitVecVal(0, 64)), {1: Tup([Tup([count_s[li]], 'Match')])})
         raise Unsupported('Captures::get(%r) on %s' % (gi, which))
     eng.stub(r'^regex::Captures::<.*>::get$', cap_get, 'Captures::get(i): group 1 always present, group 3 of the hunk pattern optional')
+    def cap_index(eng_, st_, args, ci):
+        r = cap_get(eng_, st_, args, ci)
+        return r.payloads[1].items[0].items[0]         # Index panics on an absent group; group 1 is always present, group 3 is only read through get()
+    eng.stub(r'^<regex::Captures<.*> as (std::ops::)?Index<usize>>::index$', cap_index, 'captures[i] = the text of group i (group 1 of either pattern)')
+    eng.stub(r'io::Lines<.*> as (std::iter::)?Iterator>::map::<', lambda e, s, a, c: Tup([a[0], a[1]], 'Map'), 'Lines::map (lazy adaptor)')
+    eng.stub(r'^<(std::iter::)?Map<std::io::Lines<.*> as (std::iter::)?IntoIterator>::into_iter$', lambda e, s, a, c: a[0], 'Map::into_iter = itself')
     eng.stub(r'^regex::Match::<.*>::as_str$', lambda e, s, a, c: deref(e, s, a[0]).items[0], 'Match::as_str = the captured text')
     eng.stub(r'^<str as ToOwned>::to_owned$', lambda e, s, a, c: (lambda v: v.items[0] if isinstance(v, Tup) and v.name == 'Line' else v)(deref(e, s, a[0])), 'str::to_owned = same text')
 
